@@ -1,6 +1,18 @@
 import JaqalProofs.Lemmas.PyEqSymm
+import JaqalProofs.Lemmas.ExpandMacrosSem
 import JaqalModel.Spec.Sem
-/-! Soundness of the model of Python `==` with respect to the gate-level meaning `Sem.meaning`. -/
+/-! Soundness of the model of Python `==` with respect to the gate-level meaning `Sem.meaning`.
+
+* the logical relation `evalStmt_rel`: statements that compare equal (`stmtEq`), whose gate arguments satisfy an
+  invariant of their circuit (`StmtAll A`, `StmtAll B` with `ArgInv ρ bnd bnd' A B`), evaluated under related bindings and
+  under macro tables that agree on the gate names occurring in them (`MDLook`), have related meanings;
+* two instances of the invariant: `ArgOk` (`ParserLike`: every source is a parameter or an UNSHADOWED declared register)
+  and `ArgRef` (`ParsedLike`: what every parser-produced circuit satisfies — `Lemmas/ParsedParserLike.lean` — including a
+  header alias whose source is named like a parameter of the enclosing macro);
+* macro tables: `denote_foldl_rel` (same order in both circuits) and `denote_look` (any two orders in which callees come
+  first: `MacrosOrdered`);
+* `meaning_rel` (`ParserLike`, same order), `meaning_rel_ordered` (`ParserLike`, callees first), `meaning_rel_parsed`
+  (`ParsedLike`). -/
 namespace Jaqal.PyEq
 open Jaqal Jaqal.Sem
 
@@ -217,7 +229,38 @@ theorem evalReg_rel (ρ : Env) {bnd bnd' : Bind} (hb : BindRel bnd bnd') :
   | str s => intro b h; cases b <;> simp [valEq] at h; exact trivial
   | qubit n s i _ _ => intro b h; cases b <;> simp [valEq] at h; exact trivial
 
-/-! ## scoping: what the builder guarantees about embedded register values -/
+/-! ## statements all of whose gate arguments have a property -/
+
+mutual
+  /-- every gate argument of the statement has `A` -/
+  def StmtAll (A : Val → Prop) : Stmt → Prop
+    | .gate _ _ args => ∀ a ∈ args, A a.2
+    | .block _ _ _ body => StmtsAll A body
+    | .loop _ b => StmtAll A b
+  def StmtsAll (A : Val → Prop) : List Stmt → Prop
+    | [] => True
+    | s :: rest => StmtAll A s ∧ StmtsAll A rest
+end
+
+mutual
+  theorem StmtAll.mono {A B : Val → Prop} (h : ∀ v, A v → B v) : ∀ s : Stmt, StmtAll A s → StmtAll B s
+    | .gate _ _ _, hs => fun a ha => h _ (hs a ha)
+    | .block _ _ _ body, hs => by
+      simp only [StmtAll] at hs ⊢
+      exact StmtsAll.mono h body hs
+    | .loop _ b, hs => by
+      simp only [StmtAll] at hs ⊢
+      exact StmtAll.mono h b hs
+  theorem StmtsAll.mono {A B : Val → Prop} (h : ∀ v, A v → B v) : ∀ l : List Stmt, StmtsAll A l → StmtsAll B l
+    | [], _ => trivial
+    | s :: rest, hs => ⟨StmtAll.mono h s hs.1, StmtsAll.mono h rest hs.2⟩
+end
+
+theorem stmtsAll_of_forall {A : Val → Prop} : ∀ {l : List Stmt}, (∀ s ∈ l, StmtAll A s) → StmtsAll A l
+  | [], _ => trivial
+  | s :: rest, h => ⟨h s (by simp), stmtsAll_of_forall (fun x hx => h x (by simp [hx]))⟩
+
+/-! ## scoping (1): every source is a parameter or an unshadowed register of the circuit -/
 
 /-- The source of a qubit reference, in a scope whose macro parameters are `P`: the parameter of that name, or
 the register object the circuit's dictionary holds (the builder indexes the context's own object), whose name is
@@ -231,15 +274,8 @@ def ArgOk (regs : List Val) (P : List String) : Val → Prop
   | .none => False
   | _ => True
 
-mutual
-  def StmtOk (regs : List Val) (P : List String) : Stmt → Prop
-    | .gate _ _ args => ∀ a ∈ args, ArgOk regs P a.2
-    | .block _ _ _ body => StmtsOk regs P body
-    | .loop _ b => StmtOk regs P b
-  def StmtsOk (regs : List Val) (P : List String) : List Stmt → Prop
-    | [] => True
-    | s :: rest => StmtOk regs P s ∧ StmtsOk regs P rest
-end
+abbrev StmtOk (regs : List Val) (P : List String) : Stmt → Prop := StmtAll (ArgOk regs P)
+abbrev StmtsOk (regs : List Val) (P : List String) : List Stmt → Prop := StmtsAll (ArgOk regs P)
 
 /-- the two register dictionaries bind equal (`==`) values to equal names -/
 def RegsAgree (ra rb : List Val) : Prop := ∀ x ∈ ra, ∀ y ∈ rb, x.name? = y.name? → valEq x y = true
@@ -261,8 +297,22 @@ theorem src_rel (ρ : Env) {bnd bnd' : Bind} (hb : BindRel bnd bnd') {ra rb : Li
     exact absurd hp' (hs _ hn)
   · exact evalReg_rel ρ hb _ _ (hr _ hm _ hm' (hn.trans hn'.symm))
 
-theorem evalArg_rel (ρ : Env) {bnd bnd' : Bind} (hb : BindRel bnd bnd') {ra rb : List Val} (hr : RegsAgree ra rb)
-    {P : List String} (v w : Val) (h : valEq v w = true) (hv : ArgOk ra P v) (hw : ArgOk rb P w) :
+/-! ## what the logical relation needs of the invariants of the two circuits -/
+
+/-- `A` (for the left circuit) and `B` (for the right one) exclude `None` arguments, and two qubit references that `==`
+cannot tell apart (same name, same source NAME) have sources that denote the same list of qubits. -/
+structure ArgInv (ρ : Env) (bnd bnd' : Bind) (A B : Val → Prop) : Prop where
+  noneA : ¬ A .none
+  noneB : ¬ B .none
+  src : ∀ {n : String} {src idx src' idx' : Val} {s : String}, A (.qubit n src idx) → B (.qubit n src' idx') →
+    src.name? = some s → src'.name? = some s → MRel Eq (evalReg ρ bnd src) (evalReg ρ bnd' src')
+
+theorem argInv_ok (ρ : Env) {bnd bnd' : Bind} (hb : BindRel bnd bnd') {ra rb : List Val} (hr : RegsAgree ra rb)
+    (P : List String) : ArgInv ρ bnd bnd' (ArgOk ra P) (ArgOk rb P) :=
+  ⟨fun h => h, fun h => h, fun hv hw hn hn' => src_rel ρ hb hr hv hw hn hn'⟩
+
+theorem evalArg_rel (ρ : Env) {bnd bnd' : Bind} (hb : BindRel bnd bnd') {A B : Val → Prop}
+    (hAB : ArgInv ρ bnd bnd' A B) (v w : Val) (h : valEq v w = true) (hv : A v) (hw : B w) :
     MRel ArgRel (evalArg ρ bnd v) (evalArg ρ bnd' w) := by
   cases v <;> cases w <;> simp [valEq] at h
   case int.int => simpa [evalArg, evalNum, MRel, ArgRel, Bind.bind, Except.bind, Pure.pure, Except.pure] using h
@@ -287,7 +337,7 @@ theorem evalArg_rel (ρ : Env) {bnd bnd' : Bind} (hb : BindRel bnd bnd') {ra rb 
     subst hs
     refine MRel.bind (R := Eq) (MRel.bind (evalInt_rel ρ hb _ _ hi) (fun i i' hi' => ?_)) (fun q q' hq => ?_)
     · subst hi'
-      refine MRel.bind (src_rel ρ hb hr hv hw hsn hsn') (fun l l' hl => ?_)
+      refine MRel.bind (hAB.src hv hw hsn hsn') (fun l l' hl => ?_)
       subst hl
       exact MRel.eq_refl _
     · subst hq; exact rfl
@@ -301,8 +351,67 @@ theorem evalArg_rel (ρ : Env) {bnd bnd' : Bind} (hb : BindRel bnd bnd') {ra rb 
     simp only [evalArg]
     exact MRel.bind (evalReg_rel ρ hb (.regS n s x y z) (.regS n' s' x' y' z') (by simpa [valEq] using h))
       (fun l l' hl => hl)
-  case none.none => exact hv.elim
+  case none.none => exact (hAB.noneA hv).elim
   case str.str => exact trivial
+
+/-! ## scoping (2): what holds of EVERY circuit the parser and builder produce
+
+A qubit reference in a statement of a parser-produced circuit is
+* an element `s[i]` written in place: the builder indexes what the identifier `s` resolves to — the parameter `s` of
+  the enclosing macro when there is one (parameters shadow declarations), else the register or alias `s` of the
+  circuit — and calls the reference `s[i]`, which is not the name of any declaration (identifiers have no `[`); or
+* a single-qubit alias `q` of the header (`map q s[i]`) reached by its NAME: the very value the register dictionary
+  holds under `q`, whose source is a declared register whatever parameters the enclosing macro has (in
+  `register r[2]; map q r[1]; macro m r { g q }` the source of `q` is the REGISTER `r` although `r` is a parameter).
+
+`==` sees the reference's own name, the NAME of its source and its index.  The own name tells the two cases apart:
+the name of an element is not declared, the name of an alias is. -/
+
+/-- a register / alias / named qubit of that name is declared -/
+def Declared (regs : List Val) (n : String) : Prop := ∃ x ∈ regs, x.name? = some n
+
+/-- The qubit reference called `n` with source `src`, in a scope with parameters `P` of a circuit whose register
+dictionary is `regs`: the source is a parameter and `n` is not the name of a declaration; or the source is a
+declared register / alias that no parameter shadows, or `n` is itself the name of a declaration. -/
+def QRef (regs : List Val) (P : List String) (n : String) (src : Val) : Prop :=
+  (∃ s k, src = .param s k ∧ s ∈ P ∧ ¬ Declared regs n) ∨
+  (src ∈ regs ∧ ((∀ s, src.name? = some s → s ∉ P) ∨ Declared regs n))
+
+/-- a gate argument: never `None`; a qubit is referenced as the parser does -/
+def ArgRef (regs : List Val) (P : List String) : Val → Prop
+  | .qubit n src _ => QRef regs P n src
+  | .none => False
+  | _ => True
+
+/-- the stronger invariant implies the general one when element names are not declared -/
+theorem argRef_of_argOk {regs : List Val} {P : List String} {v : Val} (h : ArgOk regs P v)
+    (hn : ∀ n src idx, v = .qubit n src idx → (∃ p k, src = .param p k) → ¬ Declared regs n) : ArgRef regs P v := by
+  cases v <;> try exact h
+  rename_i n src idx
+  rcases h with ⟨p, k, rfl, hp⟩ | ⟨hm, hs⟩
+  · exact Or.inl ⟨p, k, rfl, hp, hn _ _ _ rfl ⟨p, k, rfl⟩⟩
+  · exact Or.inr ⟨hm, Or.inl hs⟩
+
+theorem argInv_ref (ρ : Env) {bnd bnd' : Bind} (hb : BindRel bnd bnd') {ra rb : List Val} (hr : RegsAgree ra rb)
+    (hk : ∀ n, Declared ra n ↔ Declared rb n) (P : List String) : ArgInv ρ bnd bnd' (ArgRef ra P) (ArgRef rb P) := by
+  refine ⟨fun h => h, fun h => h, ?_⟩
+  intro n src idx src' idx' s hv hw hn hn'
+  rcases hv with ⟨p, k, rfl, hp, hnd⟩ | ⟨hm, hc⟩ <;> rcases hw with ⟨p', k', rfl, hp', hnd'⟩ | ⟨hm', hc'⟩
+  · simp only [Val.name?, Option.some.injEq] at hn hn'
+    have : p = p' := hn.trans hn'.symm
+    subst this
+    exact evalReg_param_rel ρ hb p k k'
+  · simp only [Val.name?, Option.some.injEq] at hn
+    subst hn
+    rcases hc' with hc' | hc'
+    · exact absurd hp (hc' _ hn')
+    · exact absurd ((hk n).2 hc') hnd
+  · simp only [Val.name?, Option.some.injEq] at hn'
+    subst hn'
+    rcases hc with hc | hc
+    · exact absurd hp' (hc _ hn)
+    · exact absurd ((hk n).1 hc) hnd'
+  · exact evalReg_rel ρ hb _ _ (hr _ hm _ hm' (hn.trans hn'.symm))
 
 /-! ## statements -/
 
@@ -319,9 +428,17 @@ mutual
     | _, _ => False
 end
 
-/-- related macro denotations: same names in the same order, same arities, related results on related arguments -/
-abbrev MDRel (md md' : MacroDen) : Prop :=
-  AssocRel (fun x y => x.1 = y.1 ∧ ∀ vs vs', List.Forall₂ ArgRel vs vs' → MRel SemRel (x.2 vs) (y.2 vs')) md md'
+/-- related macro denotations: same arities, related results on related arguments -/
+def FunRel (x y : Nat × (List SArg → M Sem)) : Prop :=
+  x.1 = y.1 ∧ ∀ vs vs', List.Forall₂ ArgRel vs vs' → MRel SemRel (x.2 vs) (y.2 vs')
+
+/-- related macro tables: same names in the same order, related denotations -/
+abbrev MDRel (md md' : MacroDen) : Prop := AssocRel FunRel md md'
+
+/-- the two macro tables agree (up to `FunRel`) on the name `g` -/
+def MDLook (md md' : MacroDen) (g : String) : Prop := OptRel FunRel (lookup md g) (lookup md' g)
+
+theorem MDRel.look {md md' : MacroDen} (h : MDRel md md') (g : String) : MDLook md md' g := lookup_rel h g
 
 theorem argsEq_forall₂ : ∀ (as bs : List (String × Val)), argsEq as bs = true →
     (∀ a ∈ as, a.2 ≠ .none) → (∀ b ∈ bs, b.2 ≠ .none) → List.Forall₂ (fun a b => valEq a.2 b.2 = true) as bs
@@ -335,9 +452,6 @@ theorem argsEq_forall₂ : ∀ (as bs : List (String × Val)), argsEq as bs = tr
   | a :: as, b :: bs, h, ha, hb => by
     simp only [argsEq, Bool.and_eq_true] at h
     exact .cons h.1 (argsEq_forall₂ as bs h.2 (fun x hx => ha x (by simp [hx])) (fun x hx => hb x (by simp [hx])))
-
-theorem argOk_ne_none {regs P} {v : Val} (h : ArgOk regs P v) : v ≠ .none := by
-  intro e; subst e; exact h
 
 theorem mapM_rel {α β γ δ} {S : γ → δ → Prop} {f : α → M γ} {g : β → M δ} {l : List α} {l' : List β}
     (h : List.Forall₂ (fun a b => MRel S (f a) (g b)) l l') :
@@ -357,26 +471,33 @@ theorem forall₂_length {α β} {R : α → β → Prop} {l : List α} {l' : Li
   | cons _ _ ih => simp [ih]
 
 mutual
-  theorem evalStmt_rel (ρ : Env) {md md' : MacroDen} (hmd : MDRel md md') {bnd bnd' : Bind} (hb : BindRel bnd bnd')
-      {ra rb : List Val} (hr : RegsAgree ra rb) (P : List String) :
-      ∀ s t : Stmt, stmtEq s t = true → StmtOk ra P s → StmtOk rb P t →
+  /-- The logical relation: statements that compare equal, whose arguments satisfy the invariants of their circuits,
+  evaluated under related bindings and under macro tables that agree on the gate names occurring in them, have related
+  meanings. -/
+  theorem evalStmt_rel (ρ : Env) {md md' : MacroDen} {bnd bnd' : Bind} (hb : BindRel bnd bnd')
+      {A B : Val → Prop} (hAB : ArgInv ρ bnd bnd' A B) :
+      ∀ s t : Stmt, stmtEq s t = true → StmtAll A s → StmtAll B t →
+        (∀ g ∈ ExpandMacros.gateNames s, MDLook md md' g) →
         MRel SemRel (evalStmt ρ md bnd s) (evalStmt ρ md' bnd' t)
-    | .gate n _ args, .gate n' _ args', h, hs, ht => by
+    | .gate n _ args, .gate n' _ args', h, hs, ht, hmd => by
       simp only [stmtEq, Bool.and_eq_true, beq_iff_eq] at h
       obtain ⟨rfl, ha⟩ := h
-      simp only [StmtOk] at hs ht
-      have hf := argsEq_forall₂ args args' ha (fun a h => argOk_ne_none (hs a h)) (fun a h => argOk_ne_none (ht a h))
+      simp only [StmtAll] at hs ht
+      have hf := argsEq_forall₂ args args' ha (fun a h e => hAB.noneA (e ▸ hs a h)) (fun a h e => hAB.noneB (e ▸ ht a h))
+      have hlook := hmd n (by simp [ExpandMacros.gateNames])
+      clear hmd
       have hf2 : List.Forall₂ (fun a b => MRel ArgRel (evalArg ρ bnd a.2) (evalArg ρ bnd' b.2)) args args' := by
         clear ha
         induction hf with
         | nil => exact .nil
         | @cons a b as bs hab _ ih =>
-          exact .cons (evalArg_rel ρ hb hr a.2 b.2 hab (hs a (by simp)) (ht b (by simp)))
+          exact .cons (evalArg_rel ρ hb hAB a.2 b.2 hab (hs a (by simp)) (ht b (by simp)))
             (ih (fun x hx => hs x (by simp [hx])) (fun x hx => ht x (by simp [hx])))
       simp only [evalStmt]
       refine MRel.bind (mapM_rel hf2) (fun vs vs' hvs => ?_)
       have hl := forall₂_length hvs
-      have := lookup_rel hmd n
+      have := hlook
+      unfold MDLook at this
       cases h1 : lookup md n <;> cases h2 : lookup md' n <;> simp [h1, h2, OptRel] at this
       · exact ⟨rfl, hvs⟩
       · rename_i x y
@@ -385,42 +506,47 @@ mutual
         split
         · exact hfun vs vs' hvs
         · exact trivial
-    | .block par sub it body, .block par' sub' it' body', h, hs, ht => by
+    | .block par sub it body, .block par' sub' it' body', h, hs, ht, hmd => by
       simp only [stmtEq, Bool.and_eq_true, beq_iff_eq] at h
       obtain ⟨⟨⟨⟨rfl, rfl⟩, hi⟩, _⟩, hbody⟩ := h
-      simp only [StmtOk] at hs ht
+      simp only [StmtAll] at hs ht
       simp only [evalStmt]
       refine MRel.bind (evalInt_rel ρ hb _ _ hi) (fun k k' hk => ?_)
       subst hk
-      refine MRel.bind (evalStmts_rel ρ hmd hb hr P body body' hbody ‹_› hs ht) (fun xs ys hxs => ?_)
+      refine MRel.bind (evalStmts_rel ρ hb hAB body body' hbody ‹_› hs ht
+        (fun g hg => hmd g (by simpa [ExpandMacros.gateNames] using hg))) (fun xs ys hxs => ?_)
       exact ⟨rfl, rfl, rfl, hxs⟩
-    | .loop c b, .loop c' b', h, hs, ht => by
+    | .loop c b, .loop c' b', h, hs, ht, hmd => by
       simp only [stmtEq, Bool.and_eq_true] at h
-      simp only [StmtOk] at hs ht
+      simp only [StmtAll] at hs ht
       simp only [evalStmt]
       refine MRel.bind (evalInt_rel ρ hb _ _ h.1) (fun k k' hk => ?_)
       subst hk
-      refine MRel.bind (evalStmt_rel ρ hmd hb hr P b b' h.2 hs ht) (fun x y hxy => ?_)
+      refine MRel.bind (evalStmt_rel ρ hb hAB b b' h.2 hs ht
+        (fun g hg => hmd g (by simpa [ExpandMacros.gateNames] using hg))) (fun x y hxy => ?_)
       exact ⟨rfl, hxy⟩
-    | .gate .., .block .., h, _, _ => by simp [stmtEq] at h
-    | .gate .., .loop .., h, _, _ => by simp [stmtEq] at h
-    | .block .., .gate .., h, _, _ => by simp [stmtEq] at h
-    | .block .., .loop .., h, _, _ => by simp [stmtEq] at h
-    | .loop .., .gate .., h, _, _ => by simp [stmtEq] at h
-    | .loop .., .block .., h, _, _ => by simp [stmtEq] at h
-  theorem evalStmts_rel (ρ : Env) {md md' : MacroDen} (hmd : MDRel md md') {bnd bnd' : Bind} (hb : BindRel bnd bnd')
-      {ra rb : List Val} (hr : RegsAgree ra rb) (P : List String) :
-      ∀ l l' : List Stmt, stmtsEq l l' = true → l.length = l'.length → StmtsOk ra P l → StmtsOk rb P l' →
+    | .gate .., .block .., h, _, _, _ => by simp [stmtEq] at h
+    | .gate .., .loop .., h, _, _, _ => by simp [stmtEq] at h
+    | .block .., .gate .., h, _, _, _ => by simp [stmtEq] at h
+    | .block .., .loop .., h, _, _, _ => by simp [stmtEq] at h
+    | .loop .., .gate .., h, _, _, _ => by simp [stmtEq] at h
+    | .loop .., .block .., h, _, _, _ => by simp [stmtEq] at h
+  theorem evalStmts_rel (ρ : Env) {md md' : MacroDen} {bnd bnd' : Bind} (hb : BindRel bnd bnd')
+      {A B : Val → Prop} (hAB : ArgInv ρ bnd bnd' A B) :
+      ∀ l l' : List Stmt, stmtsEq l l' = true → l.length = l'.length → StmtsAll A l → StmtsAll B l' →
+        (∀ g ∈ ExpandMacros.gateNamesList l, MDLook md md' g) →
         MRel SemsRel (evalStmts ρ md bnd l) (evalStmts ρ md' bnd' l')
-    | [], [], _, _, _, _ => by simp [evalStmts, MRel, Pure.pure, Except.pure, SemsRel]
-    | [], _ :: _, _, hl, _, _ => by simp at hl
-    | _ :: _, [], _, hl, _, _ => by simp at hl
-    | s :: rest, t :: rest', h, hl, hs, ht => by
+    | [], [], _, _, _, _, _ => by simp [evalStmts, MRel, Pure.pure, Except.pure, SemsRel]
+    | [], _ :: _, _, hl, _, _, _ => by simp at hl
+    | _ :: _, [], _, hl, _, _, _ => by simp at hl
+    | s :: rest, t :: rest', h, hl, hs, ht, hmd => by
       simp only [stmtsEq, Bool.and_eq_true] at h
-      simp only [StmtsOk] at hs ht
+      simp only [StmtsAll] at hs ht
       simp only [evalStmts]
-      refine MRel.bind (evalStmt_rel ρ hmd hb hr P s t h.1 hs.1 ht.1) (fun x y hxy => ?_)
-      refine MRel.bind (evalStmts_rel ρ hmd hb hr P rest rest' h.2 (by simpa using hl) hs.2 ht.2) (fun xs ys hxs => ?_)
+      refine MRel.bind (evalStmt_rel ρ hb hAB s t h.1 hs.1 ht.1
+        (fun g hg => hmd g (by simp [ExpandMacros.gateNamesList, hg]))) (fun x y hxy => ?_)
+      refine MRel.bind (evalStmts_rel ρ hb hAB rest rest' h.2 (by simpa using hl) hs.2 ht.2
+        (fun g hg => hmd g (by simp [ExpandMacros.gateNamesList, hg]))) (fun xs ys hxs => ?_)
       exact ⟨hxy, hxs⟩
 end
 
@@ -491,7 +617,7 @@ mutual
       exact ⟨norm_rel _ _ (by simpa only [SemRel] using hxy), normList_rel par xs ys hrest⟩
 end
 
-/-! ## macros -/
+/-! ## macros, listed in the same order -/
 
 theorem forall₂_append {α β} {R : α → β → Prop} {a : List α} {b : List β} {c : List α} {d : List β}
     (h : List.Forall₂ R a b) (h' : List.Forall₂ R c d) : List.Forall₂ R (a ++ c) (b ++ d) := by
@@ -535,7 +661,130 @@ theorem denote_foldl_rel (ρ : Env) {ra rb : List Val} (hr : RegsAgree ra rb) {m
     · simp [hparams]
     · intro vs vs' hvs
       rw [← hparams] at ht ⊢
-      exact evalStmt_rel ρ hmd (zip_bindRel _ hvs) hr _ m.body m'.body hbody hs ht
+      exact evalStmt_rel ρ (zip_bindRel _ hvs) (argInv_ok ρ (zip_bindRel _ hvs) hr _) m.body m'.body hbody hs ht
+        (fun g _ => hmd.look g)
+
+/-! ## macros, listed in any order in which callees come first -/
+
+/-- every macro body calls (of the macros of the list) only macros listed before it -/
+def MacrosOrdered (ms : List Macro) : Prop :=
+  ∀ pre m post, ms = pre ++ m :: post →
+    ∀ g ∈ ExpandMacros.gateNames m.body, g ∈ pre.map (·.name) ∨ g ∉ ms.map (·.name)
+
+theorem nodup_names {ms : List Macro} (h : (ms.map (fun m => some m.name)).Nodup) : (ms.map (·.name)).Nodup := by
+  induction ms with
+  | nil => simp
+  | cons m ms ih =>
+    simp only [List.map_cons, List.nodup_cons] at h ⊢
+    refine ⟨fun hmem => h.1 ?_, ih h.2⟩
+    obtain ⟨x, hx, hn⟩ := List.mem_map.1 hmem
+    exact List.mem_map.2 ⟨x, hx, by simp [hn]⟩
+
+theorem lookup_den_none (ρ : Env) {ms : List Macro} {g : String} (h : g ∉ ms.map (·.name)) :
+    lookup (denoteMacros ρ ms) g = none := by
+  rw [ExpandMacros.denoteMacros_eq]
+  apply ExpandMacros.lookup_fold_none ρ ms [] g rfl
+  intro x hx
+  have : x.name ≠ g := fun he => h (he ▸ List.mem_map_of_mem hx)
+  simpa using this
+
+/-- in an ordered table with distinct names the denotation of a macro is the meaning of its body under the FULL table -/
+theorem lookup_denote_ordered (ρ : Env) {ms : List Macro} (hnd : (ms.map (·.name)).Nodup) (ho : MacrosOrdered ms)
+    {pre : List Macro} {m : Macro} {post : List Macro} (hs : ms = pre ++ m :: post) :
+    ∃ f, lookup (denoteMacros ρ ms) m.name = some (m.params.length, f) ∧
+      ∀ args, f args = evalStmt ρ (denoteMacros ρ ms) (m.params.map (·.1) |>.zip args) m.body := by
+  have hsc := ho pre m post hs
+  subst hs
+  have hpre : ∀ x ∈ pre, (x.name == m.name) = false := by
+    intro x hx
+    simp only [List.map_append, List.map_cons] at hnd
+    have hdis := (List.nodup_append.1 hnd).2.2
+    have : x.name ≠ m.name := hdis x.name (List.mem_map_of_mem hx) m.name (by simp)
+    simpa using this
+  refine ⟨fun args => evalStmt ρ (pre.foldl (ExpandMacros.mstep ρ) []) (m.params.map (·.1) |>.zip args) m.body, ?_, ?_⟩
+  · rw [ExpandMacros.denoteMacros_eq]
+    exact ExpandMacros.lookup_fold_hit ρ pre post m [] m.name rfl hpre (by simp)
+  · intro args
+    apply ExpandMacros.evalStmt_congr_md
+    intro g hg
+    rw [ExpandMacros.denoteMacros_eq, List.foldl_append]
+    rcases hsc g hg with hav | hnot
+    · obtain ⟨x, hx, hxn⟩ := List.mem_map.1 hav
+      cases hf : List.find? (fun y : Macro => y.name == g) pre with
+      | none => exact absurd (List.find?_eq_none.mp hf x hx) (by simp [hxn])
+      | some y =>
+        obtain ⟨hy, p1, p2, hp, hp1⟩ := List.find?_eq_some_iff_append.mp hf
+        have hit := ExpandMacros.lookup_fold_hit ρ p1 p2 y [] g rfl (fun z hz => by simpa using hp1 z hz) hy
+        rw [← hp] at hit
+        rw [hit]
+        exact (ExpandMacros.lookup_fold_some ρ _ _ g _ hit).symm
+    · have hall : ∀ x ∈ pre ++ m :: post, (x.name == g) = false := by
+        intro x hx
+        have : x.name ≠ g := fun he => hnot (by rw [← he]; exact List.mem_map_of_mem hx)
+        simpa using this
+      have h1 : lookup (List.foldl (ExpandMacros.mstep ρ) [] pre) g = none :=
+        ExpandMacros.lookup_fold_none ρ pre [] g rfl (fun x hx => hall x (by simp [hx]))
+      rw [h1]
+      exact (ExpandMacros.lookup_fold_none ρ _ _ g h1 (fun x hx => hall x (by
+        simp only [List.mem_append, List.mem_cons] at hx ⊢; exact Or.inr hx))).symm
+
+/-- **The macro tables of two circuits that compare equal agree on every name, whatever the order of the two lists**, as
+long as in each list callees come first: `dict.__eq__` pairs the macros by name, and the denotation of a macro is the
+meaning of its body under the full table (induction on the position of the macro in the first list). -/
+theorem denote_look (ρ : Env) {A B : List String → Val → Prop}
+    (hAB : ∀ P (bnd bnd' : Bind), BindRel bnd bnd' → ArgInv ρ bnd bnd' (A P) (B P)) {ms ms' : List Macro}
+    (hnd : (ms.map (·.name)).Nodup) (hnd' : (ms'.map (·.name)).Nodup) (ho : MacrosOrdered ms) (ho' : MacrosOrdered ms')
+    (hpair : ∀ m ∈ ms, ∃ m' ∈ ms', m'.name = m.name ∧ macroEq m m' = true)
+    (hback : ∀ m' ∈ ms', ∃ m ∈ ms, m.name = m'.name)
+    (hA : ∀ m ∈ ms, StmtAll (A (m.params.map (·.1))) m.body)
+    (hB : ∀ m ∈ ms', StmtAll (B (m.params.map (·.1))) m.body) :
+    ∀ g, MDLook (denoteMacros ρ ms) (denoteMacros ρ ms') g := by
+  have hnone : ∀ g, g ∉ ms.map (·.name) → MDLook (denoteMacros ρ ms) (denoteMacros ρ ms') g := by
+    intro g hg
+    have hg' : g ∉ ms'.map (·.name) := by
+      intro hmem
+      obtain ⟨m', hm', rfl⟩ := List.mem_map.1 hmem
+      obtain ⟨m, hm, hn⟩ := hback m' hm'
+      exact hg (hn ▸ List.mem_map_of_mem hm)
+    unfold MDLook
+    rw [lookup_den_none ρ hg, lookup_den_none ρ hg']
+    trivial
+  have key : ∀ k, ∀ pre m post, pre.length < k → ms = pre ++ m :: post →
+      MDLook (denoteMacros ρ ms) (denoteMacros ρ ms') m.name := by
+    intro k
+    induction k with
+    | zero => intro pre m post hk; omega
+    | succ k ih =>
+      intro pre m post hk hs
+      have hm : m ∈ ms := by rw [hs]; simp
+      obtain ⟨m', hm', hname, heq⟩ := hpair m hm
+      obtain ⟨pre', post', hs'⟩ := List.append_of_mem hm'
+      obtain ⟨f, hf, hfe⟩ := lookup_denote_ordered ρ hnd ho hs
+      obtain ⟨f', hf', hfe'⟩ := lookup_denote_ordered ρ hnd' ho' hs'
+      simp only [macroEq, paramsEq, Bool.and_eq_true, beq_iff_eq] at heq
+      obtain ⟨⟨_, hparams⟩, hbody⟩ := heq
+      unfold MDLook
+      rw [hf, ← hname, hf']
+      refine ⟨by simp [hparams], fun vs vs' hvs => ?_⟩
+      show MRel SemRel (f vs) (f' vs')
+      rw [hfe, hfe']
+      have hB' := hB m' hm'
+      rw [← hparams] at hB' ⊢
+      refine evalStmt_rel ρ (zip_bindRel _ hvs) (hAB _ _ _ (zip_bindRel _ hvs)) m.body m'.body hbody (hA m hm) hB'
+        (fun g hg => ?_)
+      rcases ho pre m post hs g hg with hav | hnot
+      · obtain ⟨x, hx, rfl⟩ := List.mem_map.1 hav
+        obtain ⟨p1, p2, hp⟩ := List.append_of_mem hx
+        refine ih p1 x (p2 ++ m :: post) ?_ (by rw [hs, hp]; simp)
+        have : pre.length = p1.length + 1 + p2.length := by rw [hp]; simp; omega
+        omega
+      · exact hnone g hnot
+  intro g
+  by_cases hg : g ∈ ms.map (·.name)
+  · obtain ⟨m, hm, rfl⟩ := List.mem_map.1 hg
+    obtain ⟨pre, post, hs⟩ := List.append_of_mem hm
+    exact key (pre.length + 1) pre m post (by omega) hs
+  · exact hnone g hg
 
 /-! ## circuits -/
 
@@ -563,13 +812,23 @@ theorem forall₂_of_keys {α} (key : α → Option String) (R : α → α → P
         exact List.mem_map_of_mem hx'
       · exact ⟨y', hy'', hky, hR⟩
 
-/-- A circuit as the parser / builder produces it, as far as `C20_sound` needs: dictionaries with distinct keys;
+/-- A circuit as far as the first form of `C20_sound` needs: dictionaries with distinct keys;
 every qubit reference in a statement has as its source the macro parameter of that name or the very register value
 the circuit's dictionary holds ("registers are declared once": the builder makes qubits by indexing the register
-object of its context); no gate argument is `None`. -/
+object of its context), NOT shadowed by a parameter; no gate argument is `None`.  Not every parser-produced circuit is
+like this (a single-qubit alias whose source is shadowed by a parameter: `ParsedLike` below covers those). -/
 structure ParserLike (c : Circuit) : Prop extends DictKeys c where
   bodyOk : StmtOk c.registers [] c.body
   macrosOk : ∀ m ∈ c.macros, StmtOk c.registers (m.params.map (·.1)) m.body
+
+/-- What holds of EVERY circuit the parser and builder produce (`parsed_parserLike`, `Lemmas/ParsedParserLike.lean`):
+dictionaries with distinct keys; every qubit reference is an element of a parameter / of an unshadowed declared register
+under a name that is not declared, or has a declared source and a declared name (`QRef`); no gate argument is `None`;
+every macro body calls, of the circuit's macros, only those listed before it. -/
+structure ParsedLike (c : Circuit) : Prop extends DictKeys c where
+  bodyRef : StmtAll (ArgRef c.registers []) c.body
+  macrosRef : ∀ m ∈ c.macros, StmtAll (ArgRef c.registers (m.params.map (·.1))) m.body
+  ordered : MacrosOrdered c.macros
 
 theorem regsAgree_of_dictEq {ra rb : List Val} (hnb : (rb.map Val.name?).Nodup)
     (h : dictEq Val.name? valEq ra rb = true) : RegsAgree ra rb := by
@@ -577,6 +836,21 @@ theorem regsAgree_of_dictEq {ra rb : List Val} (hnb : (rb.map Val.name?).Nodup)
   obtain ⟨y', hy', hk', he⟩ := (dictEq_true h).2 x hx
   have : y' = y := key_inj_of_nodup Val.name? rb hnb y' hy' y hy (hk'.trans hk)
   exact this ▸ he
+
+/-- equal register dictionaries declare the same names -/
+theorem declared_of_dictEq {ra rb : List Val} (hna : (ra.map Val.name?).Nodup)
+    (h : dictEq Val.name? valEq ra rb = true) (n : String) : Declared ra n ↔ Declared rb n := by
+  obtain ⟨hlen, hall⟩ := dictEq_true h
+  have hsub : ∀ x ∈ ra, ∃ y ∈ rb, y.name? = x.name? := fun x hx => by
+    obtain ⟨y, hy, hk, _⟩ := hall x hx
+    exact ⟨y, hy, hk⟩
+  constructor
+  · rintro ⟨x, hx, hn⟩
+    obtain ⟨y, hy, hk⟩ := hsub x hx
+    exact ⟨y, hy, hk.trans hn⟩
+  · rintro ⟨y, hy, hn⟩
+    obtain ⟨x, hx, hk⟩ := keys_subset_symm Val.name? ra rb hna hlen hsub y hy
+    exact ⟨x, hx, hk.trans hn⟩
 
 /-- Circuits that compare equal have the same gate-level meaning (numbers by value) under every override
 environment `ρ` — for parser-like circuits that list their macros in the same (definition) order. -/
@@ -598,8 +872,63 @@ theorem meaning_rel (ρ : Env) (a b : Circuit) (ha : ParserLike a) (hb : ParserL
     rw [denoteMacros_eq, denoteMacros_eq]
     exact denote_foldl_rel ρ hr hms [] [] List.Forall₂.nil
   unfold meaning
-  refine MRel.bind (evalStmt_rel ρ hmd (List.Forall₂.nil) hr [] a.body b.body hbody ha.bodyOk hb.bodyOk)
-    (fun x y hxy => ?_)
+  refine MRel.bind (evalStmt_rel ρ (List.Forall₂.nil) (argInv_ok ρ List.Forall₂.nil hr []) a.body b.body hbody
+    ha.bodyOk hb.bodyOk (fun g _ => hmd.look g)) (fun x y hxy => ?_)
   exact norm_rel x y hxy
+
+/-- the common part of the order-free theorems -/
+theorem meaning_rel_look (ρ : Env) (a b : Circuit) (ha : DictKeys a) (hb : DictKeys b)
+    {A B : List String → Val → Prop}
+    (hAB : ∀ P (bnd bnd' : Bind), BindRel bnd bnd' → ArgInv ρ bnd bnd' (A P) (B P))
+    (hoa : MacrosOrdered a.macros) (hob : MacrosOrdered b.macros)
+    (hbodyA : StmtAll (A []) a.body) (hbodyB : StmtAll (B []) b.body)
+    (hA : ∀ m ∈ a.macros, StmtAll (A (m.params.map (·.1))) m.body)
+    (hB : ∀ m ∈ b.macros, StmtAll (B (m.params.map (·.1))) m.body)
+    (h : circuitEq a b = true) : MRel SemRel (meaning ρ a) (meaning ρ b) := by
+  simp only [circuitEq, Bool.and_eq_true] at h
+  obtain ⟨⟨⟨⟨⟨_, hmac⟩, _⟩, _⟩, hbody⟩, _⟩ := h
+  obtain ⟨hlen, hall⟩ := dictEq_true hmac
+  have hsub : ∀ x ∈ a.macros, ∃ y ∈ b.macros, (fun m : Macro => some m.name) y = (fun m : Macro => some m.name) x :=
+    fun x hx => by
+      obtain ⟨y, hy, hk, _⟩ := hall x hx
+      exact ⟨y, hy, hk⟩
+  have hlook := denote_look ρ hAB (nodup_names ha.macroKeys) (nodup_names hb.macroKeys) hoa hob
+    (fun m hm => by
+      obtain ⟨y, hy, hk, he⟩ := hall m hm
+      exact ⟨y, hy, by simpa using hk, he⟩)
+    (fun m' hm' => by
+      obtain ⟨x, hx, hk⟩ := keys_subset_symm (fun m : Macro => some m.name) a.macros b.macros ha.macroKeys hlen hsub m' hm'
+      exact ⟨x, hx, by simpa using hk⟩)
+    hA hB
+  unfold meaning
+  refine MRel.bind (evalStmt_rel ρ (List.Forall₂.nil) (hAB [] [] [] List.Forall₂.nil) a.body b.body hbody
+    hbodyA hbodyB (fun g _ => hlook g)) (fun x y hxy => ?_)
+  exact norm_rel x y hxy
+
+/-- `meaning_rel` without the hypothesis on the order of the two macro lists: callees first in each is enough. -/
+theorem meaning_rel_ordered (ρ : Env) (a b : Circuit) (ha : ParserLike a) (hb : ParserLike b)
+    (hoa : MacrosOrdered a.macros) (hob : MacrosOrdered b.macros) (h : circuitEq a b = true) :
+    MRel SemRel (meaning ρ a) (meaning ρ b) := by
+  have hregs : dictEq Val.name? valEq a.registers b.registers = true := by
+    simp only [circuitEq, Bool.and_eq_true] at h
+    exact h.1.1.2
+  have hr : RegsAgree a.registers b.registers := regsAgree_of_dictEq hb.regKeys hregs
+  exact meaning_rel_look ρ a b ha.toDictKeys hb.toDictKeys
+    (A := fun P => ArgOk a.registers P) (B := fun P => ArgOk b.registers P)
+    (fun P _ _ hbnd => argInv_ok ρ hbnd hr P) hoa hob ha.bodyOk hb.bodyOk ha.macrosOk hb.macrosOk h
+
+/-- **Soundness of `==` for the circuits the parser produces**: two `ParsedLike` circuits that compare equal have the
+same gate-level meaning (numbers by value) under every override environment, in whatever order their macro dictionaries
+list the macros. -/
+theorem meaning_rel_parsed (ρ : Env) (a b : Circuit) (ha : ParsedLike a) (hb : ParsedLike b) (h : circuitEq a b = true) :
+    MRel SemRel (meaning ρ a) (meaning ρ b) := by
+  have hregs : dictEq Val.name? valEq a.registers b.registers = true := by
+    simp only [circuitEq, Bool.and_eq_true] at h
+    exact h.1.1.2
+  have hr : RegsAgree a.registers b.registers := regsAgree_of_dictEq hb.regKeys hregs
+  have hk := declared_of_dictEq ha.regKeys hregs
+  exact meaning_rel_look ρ a b ha.toDictKeys hb.toDictKeys
+    (A := fun P => ArgRef a.registers P) (B := fun P => ArgRef b.registers P)
+    (fun P _ _ hbnd => argInv_ref ρ hbnd hr hk P) ha.ordered hb.ordered ha.bodyRef hb.bodyRef ha.macrosRef hb.macrosRef h
 
 end Jaqal.PyEq
